@@ -40,4 +40,7 @@ def run(ctx):
     ctx.floor("E2-C", "scheme items inside the scheme traits", n, 12)
     # 5. purpose separation: (tag, message-class) pairs at core_* call sites
     K.check_purpose_separation(ctx, P)
+    # 6. the user-facing proof-of-possession entry points stay on the POP-purpose tag (a proof of possession made
+    #    through the signing path would verify as an ordinary signature over the key bytes)
+    K.check_pop_chain(ctx, P, rule="E5.pop-chain")
     ctx.assume("hash-to-curve with distinct DSTs behaves as independent random oracles (cryptographic assumption)")
